@@ -38,6 +38,28 @@ def run(ctx):
     if ctx.quick:
         cases = [c for i, c in enumerate(cases) if i % 3 == ctx.seed % 3]
     cases += list(corpus.single_fault_cases(names, kinds=("raise", "status_fail"), probe=False))
+    # a device fault after an earlier pause+resume or suspension in the same call (the failure must surface all the same)
+    both = []
+    for name in ("custom_ck", "scan3") if ctx.quick else ("custom_ck", "scan3", "sleepy", "nested_keys"):
+        n = corpus.n_handles(name)
+        faults = [c["faults"][0] for c in corpus.single_fault_cases([name], kinds=("raise", "status_fail"), dts=(0.0, 0.3), probe=False)]
+        for k in range(1, n, ctx.pick(5, 2)):
+            for f in faults:
+                if f["op"] not in ("set", "trigger", "read"):
+                    continue
+                for kind in ("pause", "suspend"):
+                    c = corpus.base_case(name)
+                    c.pop("probe", None)
+                    inj = {"at": k, "do": kind}
+                    if kind == "suspend":
+                        inj["release_after"] = 0.3
+                    c["stages"] = [{"do": "call", "inj": [inj]}, {"do": "resume"}]
+                    c["faults"] = [dict(f)]
+                    both.append(c)
+    if ctx.quick:
+        both = [c for i, c in enumerate(both) if i % 3 == ctx.seed % 3]
+    cases += both
+    ctx.extra["fault_after_interruption_cases"] = len(both)
     ctx.sweep(cases, check_case)
     ctx.extra["sweep_cases"] = len(cases)
     e1common.generated(ctx, check_case, n=ctx.pick(800, 30000), profile="general")
